@@ -397,6 +397,45 @@ def _pragma_rows(states):
     return n, bad
 
 
+def _map_rows(states):
+    """.map weights: render the model's [ atoms ] lines, read them with the real read_backmapping_file."""
+    from vermouth.forcefield import ForceField
+    from vermouth.molecule import Block
+    from vermouth.map_input import read_backmapping_file
+    bad, n = [], 0
+    for st in states:
+        ffa, ffc = ForceField(name='verif_aa'), ForceField(name='verif_cg')
+        ba, bc = Block(force_field=ffa), Block(force_field=ffc)
+        ba.name = bc.name = 'X'
+        for a in ('A1', 'A2', 'A3'):
+            ba.add_atom({'atomname': a, 'resname': 'X', 'resid': 1})
+        for b in ('B1', 'B2'):
+            bc.add_atom({'atomname': b, 'resname': 'X', 'resid': 1})
+        ffa.blocks['X'], ffc.blocks['X'] = ba, bc
+        text = ['; comment', '[ molecule ]', 'X', '[from]', 'verif_aa', '[to]', 'verif_cg', '[ martini ]', 'B1 B2', '[ atoms ]']
+        for i, ln in enumerate(st['lines'], 1):
+            text.append('%d %s %s' % (i, ln['atom'], ' '.join(('!' if e['null'] else '') + e['b'] for e in ln['beads'])))
+        try:
+            maps = read_backmapping_file(text, {'verif_aa': ffa, 'verif_cg': ffc})
+            m = maps['verif_aa']['verif_cg']['X'].mapping
+            got = {(a, b, w) for a, d in m.items() for b, w in d.items()}
+            got_err = False
+        except IOError:
+            got, got_err = set(), True
+        except Exception as exc:      # noqa
+            got, got_err = {('exception', repr(exc), 0)}, False
+        n += 1
+        exp = st['out']
+        ok = exp['err'] == got_err
+        if ok and not got_err:
+            want = {(q[0], q[1]): (q[2], q[3]) for q in exp['w']}
+            have = {(a, b): w for a, b, w in got}
+            ok = set(want) == set(have) and all(abs(have[k] * want[k][1] - want[k][0]) < 1e-9 for k in want)
+        if not ok:
+            bad.append({'table': 'map-weights', 'text': text, 'expected': common.jsonable(exp), 'got': sorted(map(str, got)), 'got_err': got_err})
+    return n, bad
+
+
 # ------------------------------------------------------------------ shipped force-field files
 TOP = {'macros', 'variables', 'citations', 'moleculetype', 'link', 'modification'}
 
@@ -478,7 +517,7 @@ def run(tier, seed, ev, vd):
                'block/link/modification, or a table row on which two cases of the function apply; distinct by input.')
     ev.assumptions = ['content of a loaded object is compared with the abstract description its text was rendered from',
                       'lines whose brace depth becomes negative and recovers ("} {") are outside the documented grammar',
-                      '.map/.mapping readers are bound only through the shared section-header rule (see DESIGN.md)']
+                      '.map weights are modelled (MapFile); the .mapping director is bound only through the shared section-header rule']
 
     def account(outs, kind):
         for n, bad in outs:
@@ -548,6 +587,17 @@ def run(tier, seed, ev, vd):
     for st in states:
         if st['outcome'] != 'reading' and len(st['seen']) >= 2:
             ev.nontrivial_case(['pragma', st['seen']])
+    # 4b. .map weights (multiplicity / total per atom, "!" = 0, conflicts and duplicate atoms are errors)
+    res = tlc.run('MapFile', 'SPECIFICATION Spec\nINVARIANT OpIsDecl\nINVARIANT WeightsOfAnAtomSumToOne\nINVARIANT NullIsZero\n',
+                  consts={'Atoms': '{"A1","A2"}', 'Beads': '{"B1","B2"}', 'MaxBeads': '3', 'MaxLines': '2' if quick else '3'}, dump=True, timeout=1800)
+    if res.violated:
+        raise tlc.MachineryError('MapFile violates %s' % res.violated)
+    ev.add_tlc('MC MapFile', res)
+    states = list(res.states())
+    account(pmap(_map_rows, states), '.map weights')
+    for st in states:
+        if any(len(l['beads']) >= 2 for l in st['lines']):
+            ev.nontrivial_case(['map', st['lines']])
     # 5. FFFile: well-formed sequences + every fault at every position
     faults = sorted(CH.FAULT_IDS)
     menu = CH.menu_tla(None if not quick else {1, 2, 3, 4, 5, 6, 7, 8, 10, 11}, faults if not quick else faults[::2] + [faults[-1]])
